@@ -319,9 +319,13 @@ def noh_vs_cog19(model, res):
         ok = set(la) == set(lb) and all((la[k] is NAN and lb[k] is NAN) or (la[k] is not NAN and lb[k] is not NAN and same(la[k], lb[k]))
                                         for k in la)
         if not ok and len(la) == len(lb) == 2:
-            # same two pieces with differently written (but equal) shock-position tests
+            # same two pieces with differently written shock-position tests: the tests must be the same comparison
+            ca = [c for c, l in leaves(a)][0][0][2]
+            cb = [c for c, l in leaves(b_)][0][0][2]
+            same_test = ca is not None and cb is not None and ca.kind == cb.kind == 'cmp' and ca.val == cb.val and \
+                all(same(ev1.nf(x), ev2.nf(y)) for x, y in zip(ca.args[:2], cb.args[:2]))
             va, vb = sorted(la.items(), key=lambda kv: kv[0][0][1]), sorted(lb.items(), key=lambda kv: kv[0][0][1])
-            ok = all(x[1] is not NAN and y[1] is not NAN and same(x[1], y[1]) for x, y in zip(va, vb))
+            ok = same_test and all(x[1] is not NAN and y[1] is not NAN and same(x[1], y[1]) for x, y in zip(va, vb))
         if ok:
             res.discharged += 1
             res.sample({'rule': 'C07.noh-cog19', 'field': name, 'pieces': len(la)}, limit=30)
